@@ -47,6 +47,7 @@ func withWeighting(p *ref.Program, root int, salt uint64) (*ref.Program, int) {
 type gradOpts struct {
 	allowKF     bool         // recognise the listed finding broadcast_avg
 	noValue     map[int]bool // tensors whose gradient VALUE the property does not specify (nil-ness, shape, finiteness still checked)
+	relTensor   bool         // gradients judged relative to the largest expected element of the same tensor (inputs of extreme scale)
 	elementwise bool         // every gradient element is judged relative to its own magnitude (graphs that are element-wise in the judged tensors)
 	tieNode     int          // 1 + index of a (Leaky)Relu node whose derivative at exactly 0 is inferred from the observation and only required to lie between the one-sided derivatives (0 = none)
 }
@@ -92,6 +93,42 @@ func gradCase(p *ref.Program, root int, o gradOpts) core.Verdict {
 		}
 	}
 	return core.Verdict{Detail: mism, Data: p}
+}
+
+// gradCaseNoForward: gradCase for inputs of extreme scale: forward values are
+// compared relative to each tensor's own largest element.
+func gradCaseNoForward(p *ref.Program, root int, o gradOpts) core.Verdict {
+	vals, ok := p.Forward()
+	if !ok {
+		return core.Fail("HARNESS: model rejects enumerated program")
+	}
+	if !p.DifferentiableAll(vals) {
+		return core.Skip()
+	}
+	grads, _ := p.Backward(vals, root, nil, false)
+	ts, failed, err := rt.RunProgram(p)
+	if err != nil {
+		return core.Verdict{Detail: fmt.Sprintf("forward node %d (%s) returned an error on valid operands: %v", failed, p.Nodes[failed].Op, err), Data: p}
+	}
+	for i := range ts {
+		got := rt.Read(ts[i])
+		m := enum.MaxAbs(vals[i])
+		if !ref.SameShape(got.Shape, vals[i].Shape) {
+			return core.Verdict{Detail: fmt.Sprintf("forward value of tensor %d: shape %v, expected %v", i, got.Shape, vals[i].Shape), Data: p}
+		}
+		for k := range got.V {
+			if d := math.Abs(got.V[k] - vals[i].V[k]); d > 1e-7*m+1e-300 || math.IsNaN(d) {
+				return core.Verdict{Detail: fmt.Sprintf("forward value of tensor %d element %d: %v, expected %v", i, k, got.V[k], vals[i].V[k]), Data: p}
+			}
+		}
+	}
+	if err := tensor.BackPropagate(ts[root]); err != nil {
+		return core.Verdict{Detail: fmt.Sprintf("BackPropagate failed after an accepted forward pass: %v", err), Data: p}
+	}
+	if mism := compareGradsOpt(p, ts, vals, grads, o); mism != "" {
+		return core.Verdict{Detail: mism, Data: p}
+	}
+	return core.Pass()
 }
 
 // avgModelGrads: the gradients predicted by the alternative model of the
@@ -208,6 +245,18 @@ func compareGradsOpt(p *ref.Program, ts []tensor.Tensor, vals, grads []*ref.T, o
 		if noValue[i] {
 			if !ref.SameShape(got.Shape, vals[i].Shape) {
 				return fmt.Sprintf("gradient of tensor %d has shape %v, tensor has %v", i, got.Shape, vals[i].Shape)
+			}
+			continue
+		}
+		if o.relTensor {
+			if !ref.SameShape(got.Shape, grads[i].Shape) {
+				return fmt.Sprintf("gradient of tensor %d has shape %v, expected %v", i, got.Shape, grads[i].Shape)
+			}
+			m := enum.MaxAbs(grads[i])
+			for k := range got.V {
+				if d := math.Abs(got.V[k] - grads[i].V[k]); d > 1e-7*m+1e-300 || math.IsNaN(d) {
+					return fmt.Sprintf("gradient of tensor %d (shape %v): element %d is %v, expected %v (relative to the tensor's largest expected element %v)", i, vals[i].Shape, k, got.V[k], grads[i].V[k], m)
+				}
 			}
 			continue
 		}
